@@ -113,7 +113,7 @@ where
                     let mut w = Worker::spawn(&format!("{prop}-{engine}-{sh}"));
                     let hello = w.hello.clone();
                     if hello["saw_mmap"] != json!(true) || hello["saw_mprotect"] != json!(true) || hello["saw_flush"] != json!(true) {
-                        sub.inconclusive.push(format!("worker calibration failed: {hello}"));
+                        sub.inconclusive.push(format!("worker calibration failed: {hello}; worker stderr: {}", w.stderr_tail_pub()));
                         return sub;
                     }
                     let fresh = FRESH_WORKER_PER_CASE.load(std::sync::atomic::Ordering::SeqCst);
